@@ -957,25 +957,27 @@ fn longest_char_sequence(literal: &[u8], ch: u8) -> usize {
 }
 
 fn shortest_unused_sequence(literal: &[u8], f: u8) -> usize {
-    let mut used = 1;
-    let mut current = 0;
+    // Note: if the shortest unused sequence is >= 32, this returns 32 so as
+    // not to overflow the bit array (as cmark does).
+    let mut used: u32 = 1;
+    let mut current: usize = 0;
     for c in literal {
         if *c == f {
             current += 1;
         } else {
-            if current > 0 {
+            if current > 0 && current < 32 {
                 used |= 1 << current;
             }
             current = 0;
         }
     }
 
-    if current > 0 {
+    if current > 0 && current < 32 {
         used |= 1 << current;
     }
 
     let mut i = 0;
-    while used & 1 != 0 {
+    while i < 32 && used & 1 != 0 {
         used >>= 1;
         i += 1;
     }
